@@ -41,7 +41,7 @@ fn xor_case(rec: &mut Rec, ctx: &Ctx, idx: u64, rng: &mut ChaCha20Rng) {
   let t = rng.gen_range(2..=6u32);
   let ml = *pick(rng, &[0usize, 1, 8, 16, 32, 100, 158, 162, 166, 170, 340]);
   let m = rand_bytes(rng, ml);
-  let e = rand_bytes_in(rng, 0..8);
+  let e = crate::gen::epoch(rng);
   let maxaux = if ctx.thorough() { 2048 } else { 600 };
   let k = rng.gen_range(2..=5usize);
   // sequences of reports by clients sharing the measurement with differing aux;
@@ -132,7 +132,7 @@ fn xor_case(rec: &mut Rec, ctx: &Ctx, idx: u64, rng: &mut ChaCha20Rng) {
 fn window_case(rec: &mut Rec, _ctx: &Ctx, idx: u64, rng: &mut ChaCha20Rng) {
   let t = rng.gen_range(2..=5u32);
   let m = rand_bytes_pick(rng, &[8usize, 16, 32, 64]);
-  let e = rand_bytes_in(rng, 0..8);
+  let e = crate::gen::epoch(rng);
   let al = *pick(rng, &[8usize, 9, 16, 31, 32, 64, 120, 200, 340, 700]);
   let auxes: Vec<Vec<u8>> = (0..t).map(|_| rand_bytes(rng, al)).collect();
   rec.evals += 1;
